@@ -62,6 +62,7 @@ class StartRequestMonitor(Monitor):
         self.flags = set()
         self.last_pending_other_app = 0
         self.job_other = {}
+        self.jobs_seen = {}      # (X idx, X inc, application) -> start job objects already met (strong references)
         self.requests = 0
 
     def _node(self, idx):
@@ -192,6 +193,15 @@ class StartRequestMonitor(Monitor):
                            and self._stopped_for(inst, ns)]
             first_of_job = not app_pending and not any(self._view_listed(inst, p['namespec'])[0]
                                                        for p in self.ref.apps[app_name]['programs'])
+            # identity of the application start job of the requester (read for identity only): a later start_sequence
+            # of the same job is not "the application placed as a whole" again, even if what was started first failed
+            job_obj = inst.supvisors.starter.get_application_job(app_name)
+            if job_obj is not None:
+                seen = self.jobs_seen.setdefault((inst.idx, inst.incarnation, app_name), [])
+                if any(j is job_obj for j in seen):
+                    first_of_job = False
+                else:
+                    seen.append(job_obj)
             if restricted and first_of_job:
                 # a non-distributed application is placed as a whole when its job starts
                 self.job_other[jkey] = other
